@@ -156,3 +156,119 @@ def check_dft(ctx, prefix, w, a, result, exc, oracle='dft=fraunhofer'):
               dict(wit, window=None if win is None else [int(x) for x in win],
                    nonzero=int(np.count_nonzero(got[~inside]))))
     return True
+
+
+# ---------------------------------------------------------------------------------------------------------
+# propagate_fft: the same Fraunhofer model on the FFT's own grid (alpha = 1/G per axis, G = round(1/alpha))
+
+def bind_fft(args, kwargs):
+    names = ['wavefront', 'pixelscale', 'shape', 'oversample', 'scratch']
+    d = {'shape': None, 'oversample': 2, 'scratch': None}
+    d.update(dict(zip(names, args)))
+    d.update(kwargs)
+    return d
+
+
+def expected_fft(w, a, sample_limit=3e6):
+    """Model of propagate_fft for tilt-free wavefronts: dict(S, G, wl, du, ref, pts, tol) or a reason for skipping."""
+    if w.pixelscale is None or not np.isfinite(w.focal_length):
+        return 'no pixelscale / infinite focal length'
+    if any(getattr(f, 'tilt', None) for f in w.data):
+        return 'tilted field'
+    fields = [(f.data, f.offset) for f in w.data if f.data.size > 0]
+    if not fields or any(np.ndim(d) != 2 for d, _ in fields):
+        return 'shapeless (constant) input field'
+    os_ = a['oversample']
+    try:
+        if os_ != int(os_) or os_ < 1:
+            return 'non-integer oversample'
+    except Exception:
+        return 'non-integer oversample'
+    os_ = int(os_)
+    dx = np.broadcast_to(np.asarray(w.pixelscale, dtype=float), (2,))
+    du = np.broadcast_to(np.asarray(a['pixelscale'], dtype=float), (2,))
+    z, wl = float(w.focal_length), float(w.wavelength)
+    inv = [wl * z * os_ / (dx[k] * du[k]) for k in (0, 1)]
+    if any(abs((v % 1.0) - 0.5) < 1e-6 for v in inv):
+        return 'tie: 1/alpha within 1e-6 of a half-integer'
+    G = tuple(int(np.floor(v + 0.5)) for v in inv)
+    if min(G) < 1:
+        return 'empty grid'
+    lo_r, hi_r, lo_c, hi_c = rm.bbox_of([(d.shape, o) for d, o in fields])
+    if lo_r < -(G[0] // 2) or hi_r > -(G[0] // 2) + G[0] - 1 or lo_c < -(G[1] // 2) or hi_c > -(G[1] // 2) + G[1] - 1:
+        return 'input field larger than the FFT grid'
+    # the wavefront's own array must fit as well (the unpadded path pads wavefront.field)
+    ws = tuple(int(x) for x in w.shape) if w.shape is not None and len(tuple(w.shape)) == 2 else None
+    if ws is not None and (ws[0] > G[0] or ws[1] > G[1]):
+        return 'wavefront array larger than the FFT grid'
+    if a['shape'] is None:
+        S = G
+    else:
+        try:
+            sh = tuple(int(x) for x in np.broadcast_to(a['shape'], (2,)))
+        except Exception:
+            return 'bad shape'
+        if sh[0] * os_ > G[0] or sh[1] * os_ > G[1] or min(sh) < 1:
+            return 'shape larger than the grid'
+        S = (sh[0] * os_, sh[1] * os_)
+    wl_exp = min(G[k] / os_ * dx[k] * du[k] / z for k in (0, 1))
+    ar, ac = 1.0 / G[0], 1.0 / G[1]
+    u0, u1 = -(S[0] // 2), -(S[0] // 2) + S[0] - 1
+    v0, v1 = -(S[1] // 2), -(S[1] // 2) + S[1] - 1
+    out = {'S': S, 'G': G, 'wl': wl_exp, 'du': du / os_, 'os': os_}
+    out['tol'] = 8 * rm.fraunhofer_tol(fields, ar, ac, max(abs(u0), abs(u1)), max(abs(v0), abs(v1)))
+    nin = sum(d.size for d, _ in fields)
+    if nin * S[0] * S[1] <= sample_limit:
+        out['ref'] = rm.fraunhofer(fields, ar, ac, np.arange(u0, u1 + 1), np.arange(v0, v1 + 1))
+        out['pts'] = None
+    else:
+        g = np.random.default_rng([S[0], S[1], nin, 7])
+        k = 40
+        us = np.concatenate([[u0, u1, u0, u1, 0], g.integers(u0, u1 + 1, k)])
+        vs = np.concatenate([[v0, v1, v1, v0, 0], g.integers(v0, v1 + 1, k)])
+        out['ref'] = rm.fraunhofer(fields, ar, ac, us, vs, points=True)
+        out['pts'] = (us + S[0] // 2, vs + S[1] // 2)
+    return out
+
+
+def check_fft(ctx, prefix, a, result, exc, oracle='fft=fraunhofer'):
+    """Online oracle for one propagate_fft call: grid shape, reported wavelength and every output sample (or a sample of
+    them on large grids) against the Fraunhofer sum on the FFT grid.  Returns True if evaluated."""
+    from vp import probe
+    w = a['wavefront']
+    if exc is not None:
+        ctx.skip(f'propagate_fft raised {type(exc).__name__} (refusals are decided by C09)')
+        return False
+    m = expected_fft(w, a)
+    if isinstance(m, str):
+        ctx.skip('propagate_fft: ' + m)
+        return False
+    sc = a.get('scratch')
+    wit = {'in_fields': [[list(f.data.shape), [int(x) for x in f.offset]] for f in w.data][:8],
+           'pixelscale': np.asarray(a['pixelscale']).tolist(), 'shape': None if a['shape'] is None else np.asarray(a['shape']).tolist(),
+           'oversample': a['oversample'], 'scratch': None if sc is None else list(np.shape(sc)),
+           'dx': np.asarray(w.pixelscale).tolist(), 'wl': w.wavelength, 'z': w.focal_length, 'grid': list(m['G'])}
+    S = m['S']
+    how = 'scratch' if sc is not None else 'padded'
+    ps = result.pixelscale
+    ok_meta = (tuple(int(x) for x in result.shape) == S and abs(float(result.wavelength) - m['wl']) <= 1e-12 * m['wl']
+               and result.focal_length == w.focal_length and ps is not None
+               and np.allclose(np.asarray(ps, float), m['du'], rtol=1e-15, atol=0)
+               and str(result.ptype) == {'pupil': 'image', 'image': 'pupil'}.get(str(w.ptype)))
+    ctx.check(ok_meta, oracle + ':meta', f'{prefix}|meta',
+              'FFT result does not carry the grid shape (or shape*oversample), the wavelength of the rounded grid, the focal '
+              'length, du/oversample and the flipped plane type',
+              dict(wit, got={'shape': [int(x) for x in result.shape], 'wl': result.wavelength}, want={'shape': list(S), 'wl': m['wl']}))
+    if tuple(int(x) for x in result.shape) != S:
+        return True
+    with probe.quiet():
+        try:
+            got = result.field
+        except Exception as e:
+            ctx.check(False, oracle, f'{prefix}|field-raises={type(e).__name__}',
+                      f'field of the FFT-propagated wavefront raised {type(e).__name__}: {e}', wit)
+            return True
+    g = got if m['pts'] is None else got[m['pts'][0], m['pts'][1]]
+    ctx.close(oracle, g, m['ref'], 1.0, f'{prefix}|value|{how}',
+              'FFT-propagated field differs from the unitary Fraunhofer sum on the FFT grid', wit, scale=m['tol'])
+    return True
